@@ -110,8 +110,10 @@ def walk_scope(fn: ast.AST) -> Iterator[ast.AST]:
 
 
 class Repo:
-    def __init__(self, root: str = REPO_ROOT):
+    def __init__(self, root: str = REPO_ROOT, overlay: dict | None = None):
+        """overlay: {absolute path: source text} replaces the file content (in-memory variants for the sweep)."""
         self.root = root
+        self.overlay = overlay or {}
         self.modules: dict[str, Module] = {}
         self.classes: dict[str, ClassInfo] = {}
         self.funcs: dict[str, FuncInfo] = {}
@@ -136,7 +138,7 @@ class Repo:
                         parts = parts[:-1]
                     name = ".".join(parts)
                     try:
-                        src = open(path, encoding="utf-8").read()
+                        src = self.overlay[path] if path in self.overlay else open(path, encoding="utf-8").read()
                         tree = ast.parse(src, filename=path)
                     except SyntaxError as e:  # the tree does not "build"
                         raise AnalysisError(f"cannot parse {path}: {e}")
@@ -455,3 +457,16 @@ def get_repo() -> Repo:
     if _REPO is None:
         _REPO = Repo()
     return _REPO
+
+
+def set_repo(repo: Repo | None) -> None:
+    """Swap the process-wide repository (used by the in-memory sweep); clears dependent caches."""
+    global _REPO
+    _REPO = repo
+    try:
+        from . import calls
+        calls._RA_CACHE.clear()
+        from .props import common
+        common._scan = None
+    except Exception:
+        pass
